@@ -26,6 +26,8 @@ has finished).
 The file has two halves: first the single-cache thread machine above (theorems `C20_headline_*`), then — after a second
 reading guide — the thread machine with SEVERAL caches, derivations, `hash`, comparisons and REBINDING `cache_configure`
 of YarlModel/CacheMulti.lean (theorems `C20_headline_multi_*`, proofs in C20Multi.lean), which closes GAPS 2 and 5.
+Continued in C20HeadlineMore3.lean (GAPS 7: under every schedule no table ever holds a key on which the constructor raises;
+proof in C08Bridge.lean).
 -/
 namespace Yarl
 open Yarl.Cache Yarl.CacheLemmas Yarl.CacheInst
@@ -289,5 +291,13 @@ GAPS (C20 is partial by nature: it is a statement about the CPython runtime):
     exception that the sequential run does not also produce.  Interpreter-level failures (MemoryError,
     KeyboardInterrupt in the middle of a store) are outside the model.  (In the multi-cache machine a raising call or
     derivation outputs `.handle (.error exc)` carrying the exception, so the equality of outputs compares exceptions exactly.)
+    SHARPENED by C08_bridge_failed_ctor_never_cached_threads (C08Bridge.lean), see C20_headline_multi_raising_key_never_cached,
+    C20_headline_multi_yarl_raising_key_never_cached (C20HeadlineMore3.lean): the STATE-level fact behind "no cross-talk" for
+    raising calls — after ANY schedule of any threads started on a coherent world, no table of any cache or generation has an
+    entry for a key on which the constructor raises (real model: for every key on which `encodeUrl` / `preEncodedUrl` / `build`
+    raises, after any sequential prologue).  Hypotheses: `PrefillOK`, `MemoNamesOK` (the proof goes through the coherence
+    invariant; both discharged for `yarlMSem`) and a coherent initial world; the sequential counterpart needs none (C08Headline
+    GAPS 4).  Model-level as everything here: that CPython's `lru_cache` stores nothing when the wrapped function raises is
+    transcribed by the machine, not proved.
 -/
 end Yarl
